@@ -100,6 +100,7 @@ def run(ctx):
     r = Result("C16")
     r.rule("C16.sinks", "every file-system mutator reachable from main() is a CLI-named report output, the backup copy, or inside the write-back protocol function")
     r.rule("C16.protocol", "write-back = stat -> open(tmp!=source,'w') -> writes in with -> chmod(tmp, st_mode) -> replace(tmp, source); finally removes tmp; nothing else touches source")
+    r.rule("C16.read", "a read error never comes with partial content: every return of the reader that can carry an error returns the empty-list literal")
     r.rule("C16.order", "write-back dominated by parse ok, configure ok, fix done, --fix and had_violations; backup before fix")
     r.explanation = (
         "Static enumeration of all file-system mutating call sites of vsg/ (ast, resolved through imports), classification of "
@@ -174,7 +175,38 @@ def run(ctx):
         r.fail("C16.sinks", "engine-reaches:" + k, "a file-system mutator is reachable from the rule engine", path=[x[0] for x in cg.path(ereach, k)])
     if not hit:
         r.ok("C16.sinks", "engine-unreachable", "%d functions reachable from rule_list.fix/check_rules, none contains a sink" % len(ereach))
+    _read_error(r, p)
     return r
+
+
+def _read_error(r, p):
+    """Write-back replaces the file with what was read and fixed.  Nothing between the reader and write_vhdl_file looks at
+    the read error again (only the unfixable source_file_001 reports it), so all-or-nothing rests on the reader: if it
+    reports an error it must hand back no content at all - a prefix of the file plus an error would be fixed and written
+    over the whole file."""
+    rd = p.function("vsg.vhdlFile.utils:read_vhdlfile")
+    rets = [n for n in ast.walk(rd.node) if isinstance(n, ast.Return) and n.value is not None]  # nested helpers included
+    pairs = [n for n in rets if isinstance(n.value, ast.Tuple) and len(n.value.elts) == 2]
+    if len(pairs) < 2:
+        raise AnalysisError("read_vhdlfile no longer returns (content, error) pairs")
+    for n in pairs:
+        content, err = n.value.elts
+        kk = "%s:return %s" % (rd.key, norm(n.value)[:50])
+        if isinstance(err, ast.Constant) and err.value is None:
+            r.ok("C16.read", kk, "no error on this path")
+        elif isinstance(content, ast.List) and not content.elts:
+            r.ok("C16.read", kk, "error is returned with the empty-list literal")
+        else:
+            r.fail("C16.read", kk, "the reader can return an error together with the content `%s`: lines read before an I/O error would be analysed, fixed and written over the whole file (a truncated file published by --fix)" % norm(content)[:40], rd.loc(n))
+    # any other return of a call must be of a nested helper whose own returns were checked above
+    for n in rets:
+        if n in pairs:
+            continue
+        if isinstance(n.value, ast.Call) and isinstance(n.value.func, ast.Name) and any(isinstance(d, ast.FunctionDef) and d.name == n.value.func.id for d in ast.walk(rd.node)):
+            continue
+        if isinstance(n.value, ast.Name) or isinstance(n.value, ast.List):
+            continue  # a helper returning the line list alone
+        r.fail("C16.read", "%s:return %s" % (rd.key, norm(n.value)[:50]), "read_vhdlfile returns something that is not a (content, error) pair", rd.loc(n))
 
 
 def _protocol(r, p, fi):
@@ -430,6 +462,9 @@ from ..selftest import Variant  # noqa: E402
 
 _AR = "vsg/apply_rules.py"
 VARIANTS = [
+    Variant("C16", "reader returns what it read so far together with the error", "fire",
+            [("vsg/vhdlFile/utils.py", "    except OSError as e:\n        return [], e\n\n\ndef is_token_at_end_of_line", "    except OSError as e:\n        return lPartial, e\n\n\ndef is_token_at_end_of_line"),
+             ("vsg/vhdlFile/utils.py", "    if sFileName == \"stdin\":\n        return _read(sys.stdin), None", "    lPartial = []\n    if sFileName == \"stdin\":\n        return _read(sys.stdin), None")], rule="C16.read"),
     Variant("C16", "chmod after replace", "fire",
             [(_AR, "        os.chmod(tmpfile, myStat.st_mode)\n        os.replace(tmpfile, oVhdlFile.filename)\n",
               "        os.replace(tmpfile, oVhdlFile.filename)\n        os.chmod(oVhdlFile.filename, myStat.st_mode)\n")],
